@@ -38,8 +38,9 @@ from vb.tlc import MachineryError
 
 PID = 'C20'
 
-STRUCT = ['TypeOK', 'StaticOK', 'MroInv', 'PlainInv', 'OwnNameInv', 'KwInv', 'KwModelInv', 'EmitInv', 'EmitMro', 'EmitKw']
-PROPERTY = ['ResolutionInv', 'ReplacementInv', 'StaticDispatch']
+STRUCT = ['TypeOK', 'StaticOK', 'MroInv', 'IdentityInv', 'PlainInv', 'OwnNameInv', 'KwInv', 'KwModelInv', 'KwOrderInv', 'EmitInv', 'EmitMro', 'EmitKw',
+          'EmitKwOrder']
+PROPERTY = ['ResolutionInv', 'ReplacementInv', 'StaticDispatch', 'SameNameInv']
 
 
 def mutate_for_controls(model: aliases.Model, d: dict) -> dict:
@@ -62,6 +63,18 @@ def mutate_for_controls(model: aliases.Model, d: dict) -> dict:
     for f in (f1, f2):
         if f not in d['fn']:
             raise MachineryError(f'negative control anchor {f} not in the extracted model')
+    # 4. classes told apart BY NAME: the namesake subclass of Database is merged into its parent (the later
+    #    definition of a name wins, as in a dictionary keyed by the printed name)
+    t4 = next((t for t, p in sorted(model.namesake_parent.items()) if p == 'biogeme.database.Database'), None)
+    if t4 is None:
+        raise MachineryError('no namesake subclass of biogeme.database.Database in the extracted model')
+    p4 = model.namesake_parent[t4]
+    m['table'][p4] = dict(m['table'][p4], **m['table'][t4])
+    m['spaces'] = [x for x in m['spaces'] if x != t4]
+    for key in ('bases', 'table', 'cname', 'home'):
+        m[key].pop(t4, None)
+    m['static'] = [x for x in m['static'] if x[0] != t4]
+    facts['collapsed'] = (p4, t4)
     return m, facts
 
 
@@ -82,9 +95,21 @@ def body(chk: check.Check):
     chk.add_tlc('Aliases: ResolutionInv, ReplacementInv, StaticDispatch on the extracted model', res_prop)
     pairs = {(e['space'], e['alias']): e for e in res.emitted if e['kind'] == 'pair'}
     kws = [e for e in res.emitted if e['kind'] == 'kw']
+    kwseq = [e for e in res.emitted if e['kind'] == 'kwseq']
     mros = [e for e in res.emitted if e['kind'] == 'mro']
-    if not pairs or not kws or not mros:
+    if not pairs or not kws or not mros or not kwseq:
         raise MachineryError('TLC emitted nothing')
+    # the spaces are identities: one id per class object, also for classes that print the same name
+    objs = [c for s, c in model.spaces.items() if not model.is_module[s]]
+    if len({id(c) for c in objs}) != len(objs) or any(model.spaces[t] is model.spaces[p] for t, p in model.namesake_parent.items()):
+        raise MachineryError('two spaces of the extracted model are the same class object')
+    namesake_pairs = {k: e for k, e in pairs.items() if k[0] in model.namesake_classes}
+    for (sid, _), e in namesake_pairs.items():
+        psid = model.namesake_parent[sid]
+        if e['printed_name'] != d['cname'][psid] or psid not in e['namesake_of'] or model.spaces[sid].__name__ != model.spaces[psid].__name__:
+            raise MachineryError(f'namesake subclass {sid} is not seen as a namesake of {psid} by the spec')
+    if not namesake_pairs or not any(e['new_space'] == e['space'] and e['expected_definer'] == e['space'] for e in namesake_pairs.values()):
+        raise MachineryError('no (namesake subclass, alias) pair whose replacement the subclass redefines was emitted')
     chk.rule = ('(receiver space, alias) pairs emitted by TLC from the extracted model: every class of the package (and every module '
                 'holding an alias) x every deprecated name visible on it; distinct = distinct pairs, keyword rules and real-argument cases')
     chk.extra['extracted'] = dict(
@@ -94,6 +119,11 @@ def body(chk: check.Check):
         alias_bindings=len(model.alias_bindings()),
         dispatch={k: sum(1 for r in d['fn'].values() if r['kind'] == 'alias' and r['dispatch'] == k) for k in ('captured', 'dynamic', 'none', 'both')},
         keyword_rules=len(d['kwrenames']), keyword_wrappers=len(model.kwmaps), receiver_alias_pairs=len(pairs),
+        user_subclasses=len(model.user_classes), namesake_subclasses=len(model.namesake_classes),
+        namesake_subclasses_with_the_module_of_the_parent=sum(1 for t, c in model.namesake_classes.items()
+                                                              if c.__module__ == model.spaces[model.namesake_parent[t]].__module__),
+        pairs_on_namesake_subclasses=len(namesake_pairs),
+        pairs_on_namesake_subclasses_redefining_the_replacement=sum(1 for e in namesake_pairs.values() if e['expected_definer'] == e['space']),
     )
     # ---- completeness of the extraction: every wrapper alive in the process is bound somewhere in the model
     gc.collect()
@@ -123,6 +153,11 @@ def body(chk: check.Check):
                           match=dict(facts_m, kind='static-dispatch'))
         if not e['own_ok']:
             chk.violation('model:own-name', dict(receiver=e['space'], alias=e['alias']), match=dict(facts_m, kind='own-name'))
+        if not e['same_name_ok']:
+            chk.violation('model:same-name', dict(what='a subclass carrying the name of its parent is not served by its own replacement',
+                                                  receiver=e['space'], printed_name=e['printed_name'], alias=e['alias'], advertised=e['newname'],
+                                                  old_name_runs=e['model_runs'], new_name_runs=e['expected_fid']),
+                          match=dict(facts_m, kind='same-name'))
     chk.extra['model_violating_pairs'] = dict(
         resolution=sorted(f"{e['space']}.{e['alias']}" for e in pairs.values() if not e['resolution_ok']),
         replacement=sorted(f"{e['space']}.{e['alias']} -> {e['newname']} (designated: {e['candidates']})" for e in pairs.values() if not e['replacement_ok']),
@@ -177,6 +212,25 @@ def body(chk: check.Check):
             chk.violation('replay:keyword', dict(function=e['fid'], given=e['given'], problems=r['problems']),
                           match=dict(space=e['fid'], alias=e['old'], kind='keyword'))
     chk.extra['keyword_cases_replayed'] = nk
+    # ---- (C4) several keywords in every order (KwOrdered) through the real wrappers
+    order_cov = {}
+    for e in kwseq:
+        r = aliases.kw_case(model, e)
+        chk.replayed += 1
+        chk.count(('kwseq', e['fid'], str(e['given'])), 1)
+        if {'ignored', 'old-style', 'new-style'} <= set(e['kinds']):
+            w = aliasreal.ignored_position(e)
+            order_cov[w] = order_cov.get(w, 0) + 1
+        if not r['ok']:
+            chk.violation('replay:keyword-order', dict(function=e['fid'], given=e['given'], kinds=e['kinds'], problems=r['problems']),
+                          match=dict(space=e['fid'], alias=','.join(n for n, _ in e['given']), kind='keyword-order'))
+    chk.extra['ordered_keyword_cases'] = dict(replayed=len(kwseq), functions=len({e['fid'] for e in kwseq}),
+                                              longest=max(len(e['given']) for e in kwseq),
+                                              ignored_keyword_among_old_and_new_style=order_cov)
+    if any(order_cov.get(w, 0) == 0 for w in ('first', 'middle', 'last')):
+        raise MachineryError(f'TLC emitted no ordered keyword case with the ignored keyword first / in the middle / last: {order_cov}')
+    ex = next(e for e in kwseq if len(e['given']) >= 4 and aliasreal.ignored_position(e) == 'middle' and {'old-style', 'new-style'} <= set(e['kinds']))
+    chk.sample(dict(ordered_keywords=ex['fid'], given=ex['given'], kinds=ex['kinds'], spec_forwarded=ex['forwarded_options'], spec_warnings=ex['warnings']))
     chk.sample(dict(keyword_rule=kws[0]['fid'], old=kws[0]['old'], new=kws[0]['new'], given=kws[0]['given'],
                     spec_forwarded_options=kws[0]['forwarded_options'], spec_warnings=kws[0]['warnings']))
     # ---- (D) real objects, real arguments
@@ -218,7 +272,24 @@ def body(chk: check.Check):
         if v['diffs']:
             chk.violation('real:keyword-differs', dict(function=c['fid'], old=c['old'], new=c['new'], differences=v['diffs']),
                           match=dict(space=c['fid'], alias=c['old'], kind='real-keyword'))
+    ocases = aliasreal.build_kw_order_cases(model, kwseq, chk.tier)
+    if {c['where'] for c in ocases} != {'first', 'middle', 'last'}:
+        raise MachineryError('no real-argument case for an ignored keyword first / in the middle / last')
+    oout = par.pmap(aliasreal.run_kw_order_case, [(model, c, chk.seed % 1000) for c in ocases], chunk=1, timeout=300)
+    for c, (st, v) in zip(ocases, oout):
+        chk.replayed += 1
+        names = ','.join(n for n, _ in c['given'])
+        if st != 'ok':
+            chk.violation('real:harness', dict(function=c['fid'], given=names, status=st, info=v), match=dict(space=c['fid'], alias=names, kind='real-harness'))
+            continue
+        chk.count(('realkwseq', c['fid'], names), 2)
+        both_raised += all(v['raised'])
+        if v['diffs']:
+            chk.violation('real:keyword-order-differs', dict(function=c['fid'], given=c['given'], forwarded_by_the_spec=c['forwarded'], differences=v['diffs']),
+                          match=dict(space=c['fid'], alias=names, kind='real-keyword-order'))
     chk.extra['real_argument_cases'] = dict(alias_calls=len(cases), keyword_calls=len(kcases), both_sides_raised=both_raised,
+                                           ordered_keyword_calls={w: sum(1 for c in ocases if c['where'] == w) for w in ('first', 'middle', 'last')},
+                                           alias_calls_on_namesake_subclasses=sum(1 for c in cases if c['space'] in model.namesake_classes),
                                            pairs_with_real_call=len({(c['space'], c['alias']) for c in cases}),
                                            pairs_spy_only=len(uncovered_pairs), keyword_rules_spy_only=[list(x) for x in uncovered_rules])
     # ---- negative controls
@@ -251,6 +322,48 @@ def body(chk: check.Check):
             break
     if not done:
         chk.control('spy: expected definer replaced by another definer', False, note='no pair with two definers found')
+    # namesake subclasses: (i) a model that tells classes apart by name, (ii) a wrapper that recognises its class by name
+    p4, t4 = facts['collapsed']
+    a4 = next((a for (sp, a), e in sorted(pairs.items()) if sp == t4 and e['expected_definer'] == t4 and e['resolution_ok'] and (p4, a) in cp), None)
+    if a4 is None:
+        chk.control('model: classes told apart by name (namesake subclass merged into Database)', False, note='no suitable alias')
+    else:
+        r_bad, r_good = aliases.spy_pair(model, cp[(p4, a4)]), aliases.spy_pair(model, pairs[(p4, a4)])
+        chk.control(f'model: classes told apart by name (namesake subclass merged into Database): the spec then expects Database.{a4} to run the '
+                    'subclass\'s function and the interpreter contradicts it', (t4, a4) not in cp and not r_bad['ok'] and r_good['ok'],
+                    note=str(r_bad['problems'])[:200])
+        owner = model.spaces[p4]
+        usid = next((u for u, c in model.user_classes.items() if c.__bases__[0] is owner), None)
+        raw = vars(owner)[a4]
+        bad_w = aliases.name_dispatching_wrapper(aliases._unwrap_descriptor(raw)[0], owner)
+        setattr(owner, a4, bad_w)
+        try:
+            on_twin = aliases.spy_pair(model, pairs[(t4, a4)])
+            on_user = aliases.spy_pair(model, pairs[(usid, a4)]) if usid and (usid, a4) in pairs else dict(ok=False, problems=['no user subclass'])
+            on_self = aliases.spy_pair(model, pairs[(p4, a4)])
+        finally:
+            setattr(owner, a4, raw)
+        if vars(owner)[a4] is not raw:
+            raise MachineryError('control wrapper not removed')
+        chk.control(f'wrong code: Database.{a4} replaced by a wrapper that recognises its class by NAME: reported on the namesake subclass only '
+                    '(Database itself and the differently named subclass are served correctly)',
+                    not on_twin['ok'] and on_user['ok'] and on_self['ok'],
+                    note=str(on_twin['problems'])[:200])
+    # keyword order: a wrapper that stops reading the keywords at an ignored one
+    fidB = next(e['fid'] for e in kwseq if 'ignored' in e['kinds'])
+    bad_w = aliases.stopping_kw_wrapper(model.obj_of[fidB])
+    tally = {}
+    for e in kwseq:
+        if e['fid'] == fidB and 'ignored' in e['kinds']:
+            w = aliasreal.ignored_position(e)
+            ok = aliases.kw_case(model, e, wrapper=bad_w)['ok']
+            tally.setdefault(w, [0, 0])[0 if ok else 1] += 1
+    old_style = [aliases.kw_case(model, e, wrapper=bad_w)['ok'] for e in kws if e['fid'] == fidB]
+    chk.control('wrong code: a keyword wrapper that stops at an ignored keyword is reported by every ordered case with the ignored keyword first or in '
+                'the middle, by none with it last, and by none of the one-rule cases',
+                tally.get('first', [1, 0])[0] == 0 and tally.get('middle', [1, 0])[0] == 0 and tally.get('last', [0, 1])[1] == 0
+                and tally.get('first', [0, 0])[1] > 0 and tally.get('middle', [0, 0])[1] > 0 and tally.get('last', [0, 0])[0] > 0 and all(old_style),
+                note=f'[accepted, reported] by position: {tally}; one-rule cases accepted: {sum(old_style)}/{len(old_style)}')
     # keyword: the expected forwarded value exchanged
     e = next(x for x in kws if x['warnings'] == 1 and len(x['given']) == 1 and x['new'] and x['given'][0][0] == x['old'])
     bad = dict(e, forwarded_options=[[[e['new'], 2]]])
@@ -265,7 +378,10 @@ def body(chk: check.Check):
     chk.control('real arguments: getSampleSize on panel data compared with get_number_of_observations', st == 'ok' and bool(v['diffs']))
     chk.uncovered += [
         'class-qualified calls (Base.old_name(obj), super().old_name()) are not modelled: Call is attribute access on an instance of the receiver class',
-        'receivers are the classes of the package; subclasses written by users are covered only through the general MRO argument of the spec',
+        'subclasses written by users are represented by two generated subclasses per alias-declaring class (another name; the name of the parent), '
+        'both redefining every advertised name; deeper user hierarchies only through the general MRO argument of the spec',
+        'ordered keyword cases: sequences of 2..5 distinct keywords over a pool of at most 5 per function (ignored, two old-style, two new-style); '
+        'old and new keyword of the same rule are never both in the pool (that ambiguity is covered by the one-rule cases)',
         f'{len(uncovered_pairs)} (receiver, alias) pairs are checked by spies only (no instance with real arguments is built for them)',
         'when the old and the new keyword are both given the documentation is silent: the spec only requires that one of the two values arrives',
         'files written by old and new calls are compared by name, not by content (reports carry time stamps)',
